@@ -157,6 +157,27 @@ Definition idft (N : nat) (X : list R) : list R :=
 Definition spectral_conv (N : nat) (a b : list R) : list R :=
   idft N (pmul (dft N a) (dft N b)).
 
+(* The half-spectrum path convolve actually takes:  irfft(rfft(x_) * rfft(w_), n=ns).
+   rfft(x)      = bins 0 .. N div 2 of the DFT.
+   irfft(X, n)  : uses bins 0 .. n div 2 of X (zero padded if shorter), discards the
+                  imaginary part of bin 0 and, for even n, of bin n/2 (C2R transform),
+                  mirrors the remaining bins by conjugation and applies the inverse
+                  transform.  re z = (z + conj z)/2 with an abstract `half`. *)
+Definition half_len (N : nat) : nat := Z.to_nat (Z.of_nat N / 2 + 1).
+Definition rfft (N : nat) (x : list R) : list R := firstn (half_len N) (dft N x).
+Definition re_part (half : R) (conj : R -> R) (z : R) : R := rmul half (radd z (conj z)).
+Definition irfft_bins (half : R) (conj : R -> R) (N : nat) (X : list R) : list R :=
+  map (fun i => if (i =? 0)%nat || ((N mod 2 =? 0)%nat && (i =? N / 2)%nat)
+                then re_part half conj (getr X i) else getr X i)
+      (seq 0 (half_len N)).
+Definition irfft (half : R) (conj : R -> R) (N : nat) (X : list R) : list R :=
+  match fexpand rO conj (irfft_bins half conj N X) (Z.of_nat N) with
+  | Some H => idft N H
+  | None => []
+  end.
+Definition rfft_conv (half : R) (conj : R -> R) (N : nat) (a b : list R) : list R :=
+  irfft half conj N (pmul (rfft N a) (rfft N b)).
+
 (* convolve(x, w, mode):
      nsx, nsw = x.shape[-1], w.shape[-1];  ns = ns_optim_fft(nsx + nsw)
      x_, w_ = zero padded to ns
